@@ -614,11 +614,21 @@ func routeeName(index int, routerName string) string {
 
 func (x *router) availableRoutees() ([]*PID, bool) {
 	routees := make([]*PID, 0, x.poolSize)
+	removed := false
 	for _, routee := range x.routeesMap {
 		if !routee.IsRunning() {
+			// a routee that stopped outside the router's supervision path must not
+			// be handed out once more (the message would be lost)
 			delete(x.routeesMap, routee.ID())
+			removed = true
+			continue
 		}
 		routees = append(routees, routee)
+	}
+	if removed {
+		// keep the consistent-hash ring in step with the live routees so that the
+		// keys of the departed routee get a stable new owner
+		x.rebuildHashRing()
 	}
 	return routees, len(routees) > 0
 }
